@@ -1019,6 +1019,22 @@ def flip_v_bit(raw, code):
     return bytes(b)
 
 
+def cex_with_hostip(n, data):
+    """the CER / CEA of the peer with its Host-IP-Address data replaced (lengths kept consistent)"""
+    raw = bytearray(n.make("CER" if n.role == "server" else "CEA", True, 1).dump())
+    i = 20
+    while i + 8 <= len(raw):
+        ln = int.from_bytes(raw[i + 5:i + 8], "big")
+        if int.from_bytes(raw[i:i + 4], "big") == 257:
+            new = bytes(raw[i:i + 5]) + (8 + len(data)).to_bytes(3, "big") + data + bytes(-len(data) % 4)
+            out = bytes(raw[:i]) + new + bytes(raw[i + ln + (-ln % 4):])
+            return out[:1] + len(out).to_bytes(3, "big") + out[4:]
+        if ln < 8:
+            break
+        i += ln + (-ln % 4)
+    return bytes(raw)
+
+
 def garbage_segments(n, rng):
     good = n.make("REQ", True, 1, variant=1).dump()          # (with a Destination-Host AVP)
     u32x5 = bytes.fromhex("0000010c4000000d0000000001000000")
@@ -1048,6 +1064,8 @@ def garbage_segments(n, rng):
         "request-dest-host-v-bit": flip_v_bit(good, 293),
         "request-dest-realm-v-bit": flip_v_bit(good, 283),
         "misaddressed-dest-host-v-bit": flip_v_bit(n.make("MIS", True, 1).dump(), 293),
+        # a capabilities exchange whose Host-IP-Address carries another IANA address family (E.164) and two address octets
+        "cex-hostip-other-family": cex_with_hostip(n, bytes([0, 8, 0x12, 0x34])),
         # a well-formed capabilities exchange in which another vendor's AVP uses code 257 (Host-IP-Address) with two data octets
         "cex-vendor-avp-code-257": cex_with_vendor_257(n),
         "bad-utf8-uri": wrap((292).to_bytes(4, "big") + b"\x40" + (14).to_bytes(3, "big") + b"aaa:\xff\xfe\0\0"),
@@ -1152,7 +1170,7 @@ def run_garbage(seed, role, state, kind):
 def check_garbage(rep):
     rng = random.Random(rep.seed * 7919 + 33)
     kinds = ["length0", "length19", "short-header", "truncated", "avp-length-too-big", "avp-length-zero", "u32-five-bytes", "unknown-enumerator",
-             "misaddressed", "misaddressed-not-utf8-host", "misaddressed-not-utf8-realm", "dwr-origin-host-not-utf8", "cex-origin-realm-not-utf8", "cex-vendor-avp-code-257", "deep-nesting", "request-dest-host-v-bit", "request-dest-realm-v-bit", "misaddressed-dest-host-v-bit", "bad-utf8-uri", "random", "garbage-then-good", "good-then-length0", "good-then-length19", "good-then-random", "dwr-then-length0",
+             "misaddressed", "misaddressed-not-utf8-host", "misaddressed-not-utf8-realm", "dwr-origin-host-not-utf8", "cex-origin-realm-not-utf8", "cex-vendor-avp-code-257", "cex-hostip-other-family", "deep-nesting", "request-dest-host-v-bit", "request-dest-realm-v-bit", "misaddressed-dest-host-v-bit", "bad-utf8-uri", "random", "garbage-then-good", "good-then-length0", "good-then-length19", "good-then-random", "dwr-then-length0",
              "answer-known-e2e-unknown-hbh"]
     cases = [("client", "open"), ("server", "open"), ("client", "wait-cea"), ("server", "before-cer"), ("client", "closing")]
     reps = 1 if rep.tier == "quick" else 10
